@@ -8,7 +8,7 @@ import (
 )
 
 func runC16(c *Ctx) {
-	c.res.Rule = "per modulus (p, n) and operation (mul square add sub opp tomont frommont selectznz0/1 one invert): operands with limbs drawn from {0,1,2^32-1,2^32,2^63,2^64-1, limbs of p, limbs of n} in all positions, p-1, n-1, m-1, m-2 and uniform canonical values; non-canonical operands (>= m) are compared with the generated model only; byte conversion round trips and SetBytes rejection via the element wrappers; class = (field, op, operand pattern)"
+	c.res.Rule = "per modulus (p, n) and operation (mul square add sub opp tomont frommont selectznz0/1 one invert): operands with limbs drawn from {0,1,2^32-1,2^32,2^63,2^64-1, limbs of p, limbs of n} in all positions, p-1, n-1, m-1, m-2 and uniform canonical values; non-canonical operands (>= m) are compared with the generated model only; byte conversion round trips and SetBytes rejection via the element wrappers; composition (gap X1): SignHashed, DerivePublic, VerifyHashed (valid, corrupted, bad key) and point Add/Double (generic, doubling, inverse, infinity; random projective representatives) of the real code against the limb-level model ctxFiat = generated Fiat functions under the point/curve/protocol models; class = (field, op, operand pattern) resp. (entry point, outcome)"
 	nRand := 300
 	if c.tier == "thorough" {
 		nRand = 20000
@@ -198,6 +198,103 @@ func runC16(c *Ctx) {
 		req := "fe.setbytes p " + hexOrDash(x)
 		c.Case("fe.setbytes", "wrapper/setbytes/len", false, req)
 		c.Check3("fe.setbytes", "wrapper/setbytes/len", req, "fe.setbytes.spec p "+hexOrDash(x), impl)
+	}
+	runC16Compose(c)
+}
+
+// runC16Compose runs the LIMB-LEVEL model (Model.SM2.ctxFiat: the regenerated Fiat functions under the
+// models of the point, curve and protocol layers; Props/SM2Fiat.lean proves it equal to the residue-level
+// model at the protocol level) against the real code: signatures, verifications, key derivations and
+// point additions/doublings with exact projective limbs.  Small counts: the limb-level model is slower.
+func runC16Compose(c *Ctx) {
+	nSig, nPts := 8, 6
+	if c.tier == "thorough" {
+		nSig, nPts = 60, 40
+	}
+	keys := []keyPair{mkKey(big.NewInt(1)), mkKey(new(big.Int).Sub(curveN, big.NewInt(2)))}
+	for i := 0; i < nSig; i++ {
+		keys = append(keys, randKey(c))
+	}
+	for i, kp := range keys {
+		e := c.rng.Bytes(32)
+		// a rejected candidate (k >= n, k = 0) before the good one in every other stream
+		chunks := [][]byte{be32(randK(c))}
+		if i%2 == 1 {
+			chunks = [][]byte{be32(new(big.Int).Add(curveN, big.NewInt(int64(i)))), make([]byte, 32), be32(randK(c))}
+		}
+		script := dataScript(chunks...)
+		impl := implSignHashed(script, kp.priv, e)
+		req := fmt.Sprintf("sm2.sign.fiat %x %x %s", kp.priv, e, scriptString(script))
+		cl := fmt.Sprintf("compose/sign/%s", signClass(impl))
+		c.Case("sm2.sign.fiat", cl, false, req)
+		c.CheckModel("sm2.sign.fiat", cl, req, impl)
+		// key derivation through the limb-level comb and the generated inversion chain
+		dreq := fmt.Sprintf("sm2.derive.fiat %x", kp.priv)
+		c.Case("sm2.derive.fiat", "compose/derive", false, dreq)
+		c.CheckModel("sm2.derive.fiat", "compose/derive", dreq, implDerive(kp.priv))
+		// verification of that signature, and of a corrupted one
+		var rh, sh string
+		var n int
+		if k, _ := fmt.Sscanf(impl, "ok %s %s %d", &rh, &sh, &n); k == 3 {
+			r, s := parseHexNil(rh), parseHexNil(sh)
+			for _, mut := range []string{"valid", "flip-s", "flip-e"} {
+				r2, s2, e2 := r, append([]byte{}, s...), append([]byte{}, e...)
+				switch mut {
+				case "flip-s":
+					s2[31] ^= 1
+				case "flip-e":
+					e2[c.rng.Intn(32)] ^= 0x10
+				}
+				if mut != "valid" && i%3 != 0 {
+					continue
+				}
+				vimpl := implVerifyHashed(kp.px, kp.py, e2, r2, s2)
+				vreq := fmt.Sprintf("sm2.verify.fiat %x %x %x %x %x", kp.px, kp.py, e2, r2, s2)
+				vcl := "compose/verify/" + mut + "/" + vimpl
+				c.Case("sm2.verify.fiat", vcl, false, vreq)
+				c.CheckModel("sm2.verify.fiat", vcl, vreq, vimpl)
+			}
+		}
+	}
+	// off-curve / non-canonical public keys are refused before any arithmetic
+	{
+		kp := randKey(c)
+		e, r, s := c.rng.Bytes(32), be32(randK(c)), be32(randK(c))
+		bad := append([]byte{}, kp.py...)
+		bad[31] ^= 1
+		for _, py := range [][]byte{bad, be32(new(big.Int).Sub(new(big.Int).Lsh(big.NewInt(1), 256), big.NewInt(1)))} {
+			vimpl := implVerifyHashed(kp.px, py, e, r, s)
+			vreq := fmt.Sprintf("sm2.verify.fiat %x %x %x %x %x", kp.px, py, e, r, s)
+			c.Case("sm2.verify.fiat", "compose/verify/badkey/"+vimpl, false, vreq)
+			c.CheckModel("sm2.verify.fiat", "compose/verify/badkey/"+vimpl, vreq, vimpl)
+		}
+	}
+	// point layer: exact projective limbs of Add / Double on random representatives, incl. the special cases
+	G := affG()
+	for it := 0; it < nPts; it++ {
+		R := affMul(new(big.Int).SetBytes(c.rng.Bytes(32)), G)
+		S := affMul(new(big.Int).SetBytes(c.rng.Bytes(32)), G)
+		negR := affPt{x: R.x, y: new(big.Int).Sub(curveP, R.y)}
+		pairs := []struct {
+			name string
+			a, b affPt
+		}{{"R+S", R, S}, {"R+R", R, R}, {"R-R", R, negR}, {"O+R", affPt{inf: true}, R}, {"R+O", R, affPt{inf: true}}, {"G+R", G, R}}
+		for _, pr := range pairs {
+			p1, p2 := pointFromAff(pr.a), pointFromAff(pr.b)
+			if it%2 == 1 {
+				p1, p2 = scaleZ(c, p1), scaleZ(c, p2)
+			}
+			in1, in2 := ptHex(p1), ptHex(p2)
+			impl := try(func() string { return "ok " + ptHex(sm2.VerifNewPoint().Add(p1, p2)) })
+			req := "pt.add.fiat " + in1 + " " + in2
+			c.Case("pt.add.fiat", "compose/add/"+pr.name, false, req)
+			c.CheckModel("pt.add.fiat", "compose/add/"+pr.name, req, impl)
+		}
+		p1 := scaleZ(c, pointFromAff(R))
+		in1 := ptHex(p1)
+		impl := try(func() string { return "ok " + ptHex(sm2.VerifNewPoint().Double(p1)) })
+		c.Case("pt.double.fiat", "compose/double", false, "pt.double.fiat "+in1)
+		c.CheckModel("pt.double.fiat", "compose/double", "pt.double.fiat "+in1, impl)
 	}
 }
 
